@@ -323,10 +323,13 @@ type State struct {
 	sorts map[string]Sort
 	gen   int
 	alloc Term
+	// parents: set for a state created by joining paths that went through different havocs; a memory
+	// component not materialised yet is then resolved path by path (lazily) instead of being fresh
+	parents []edgeIn
 }
 
 func (st *State) clone() *State {
-	n := &State{reach: st.reach, mem: make(map[string]Term, len(st.mem)), gen: st.gen, alloc: st.alloc, sorts: st.sorts}
+	n := &State{reach: st.reach, mem: make(map[string]Term, len(st.mem)), gen: st.gen, alloc: st.alloc, sorts: st.sorts, parents: st.parents}
 	for k, v := range st.mem {
 		n.mem[k] = v
 	}
@@ -339,6 +342,22 @@ func (vc *VC) get(st *State, name string, sort Sort) Term {
 		return t
 	}
 	vc.memSorts[name] = sort
+	if len(st.parents) > 0 {
+		var v Term
+		for i := len(st.parents) - 1; i >= 0; i-- {
+			pv := vc.get(st.parents[i].st, name, sort)
+			if i == len(st.parents)-1 {
+				v = pv
+			} else {
+				v = Ite(st.parents[i].st.reach, pv, v)
+			}
+		}
+		if strings.HasPrefix(v.S, "(ite") {
+			v = vc.q.Define(name+"$lm", v)
+		}
+		st.mem[name] = v
+		return v
+	}
 	cname := fmt.Sprintf("%s$g%d", name, st.gen)
 	fresh := !vc.q.IsDeclared(cname)
 	t := vc.q.Declare(cname, sort)
@@ -388,6 +407,7 @@ func (vc *VC) havocAll(st *State, keepRoots []Term) {
 	vc.ngen++
 	st.gen = vc.ngen
 	st.mem = map[string]Term{}
+	st.parents = nil
 	for name, prev := range old {
 		sort := prev.Sort
 		if strings.HasPrefix(name, "L_") {
